@@ -329,6 +329,57 @@ func (w *world) brokenSetup(i, j int) {
 	}
 }
 
+// fakeLink is a harness-made link object (what a setup holds between choosing its label and registering).
+type fakeLink struct {
+	peering.Link // nil: only the methods below are used by the registry
+	peer         netip.Addr
+	label        m.SwitchLabel
+	closing      bool
+}
+
+func (f *fakeLink) Peer() netip.Addr           { return f.peer }
+func (f *fakeLink) SwitchLabel() m.SwitchLabel { return f.label }
+func (f *fakeLink) IsClosing() bool            { return f.closing }
+func (f *fakeLink) Lite() bool                 { return false }
+func (f *fakeLink) String() string             { return "fake link" }
+func (f *fakeLink) Close(func())               { f.closing = true }
+
+// labelCollision emulates the interleaving "two setups chose the same free switch label, then both register":
+// a second link object with the label of a live link is registered through the exported AddLink.
+func (w *world) labelCollision() {
+	var cands []*node
+	for _, n := range w.nodes {
+		if len(w.liveLinks(n)) > 0 {
+			cands = append(cands, n)
+		}
+	}
+	if len(cands) == 0 {
+		return
+	}
+	n := cands[w.r.IntN(len(cands))]
+	ll := w.liveLinks(n)
+	t := ll[w.r.IntN(len(ll))]
+	// a peer this node has no link to
+	other := -1
+	for _, o := range w.nodes {
+		if o.idx != n.idx && n.r.Inst.PeeringV.GetLink(o.id.IP) == nil {
+			other = o.idx
+		}
+	}
+	if other < 0 {
+		return
+	}
+	w.trace = append(w.trace, fmt.Sprintf("register-second-link-with-label-of-live-link(%d: label %d, new peer %d)", n.idx, t.link.SwitchLabel(), other))
+	fl := &fakeLink{peer: w.nodes[other].id.IP, label: t.link.SwitchLabel()}
+	if err := n.r.Inst.PeeringV.AddLink(fl); err != nil {
+		w.res.Count("label_collisions_refused", 1)
+		return
+	}
+	// accepted: it is now a live, registered link like any other
+	n.links = append(n.links, &tracked{link: fl, peer: other, w: wire.New()})
+	w.res.Count("label_collisions_accepted", 1)
+}
+
 // quiesce waits until every link the harness closed reports closing.
 func (w *world) quiesce() bool {
 	ok := waitFor(func() bool {
@@ -465,6 +516,9 @@ func runSequence(res *core.Result, r *rand.Rand, ids []*m.Address, keyPrefix str
 			interesting = true
 		case k < 70:
 			w.brokenSetup(i, j)
+			interesting = true
+		case k < 76:
+			w.labelCollision()
 			interesting = true
 		default:
 			w.closeSome()
